@@ -32,7 +32,7 @@ ASSUMPTIONS = [
 NSHARDS = {'quick': 16, 'thorough': 16}
 FAIL_KINDS = ['raise', 'multi_raise', 'compound_raise', 'called', 'called_long', 'gotwant', 'gotwant_eval',
               'gotwant_multi', 'gotwant_second', 'none', 'try_finally', 'try_except_other', 'comprehension',
-              'with_raise', 'nested_try', 'lambda_call', 'while_else']
+              'with_raise', 'nested_try', 'lambda_call', 'while_else', 'compile_return', 'compile_nonlocal']
 PREFIXES = ['', '', 'r', 'R', 'u', 'U']
 
 
@@ -93,6 +93,11 @@ def gen_doctest(rng, uid, fail_kind):
         L += ['>>> fz = lambda: 1 / 0', '>>> w = 3', '>>> fz()  # %s' % fm]
     elif fail_kind == 'while_else':
         L += ['>>> n = 2', '>>> while n:', '...     n -= 1', '... else:', '...     raise KeyError("%s")' % fm]
+    elif fail_kind == 'compile_return':
+        # rejected only when the part is compiled: the failing line is the line the SyntaxError names
+        L += ['>>> pre_ok = 1', '>>> return 5  # %s' % fm]
+    elif fail_kind == 'compile_nonlocal':
+        L += ['>>> def nl():', '...     xx = 1', '...     nonlocal xx  # %s' % fm]
     elif fail_kind == 'gotwant':
         L += ['>>> print("good")', '%s bad' % fm, 'second want line']
     elif fail_kind == 'gotwant_eval':
